@@ -123,6 +123,7 @@ func newNodeDB(db corestore.KVStoreWithBatch, cacheSize int, opts Options, lg Lo
 
 	if opts.AsyncPruning {
 		ndb.done = make(chan struct{})
+		verifSpawn(ndb)
 		go ndb.startPruning()
 	}
 
@@ -395,6 +396,7 @@ func (ndb *nodeDB) Has(nk []byte) (bool, error) {
 func (ndb *nodeDB) deleteFromPruning(key []byte) error {
 	if ndb.IsCommitting() {
 		// if the nodeDB is committing, the pruning process will be done after the committing.
+		verifBlockUntil(func() bool { return len(ndb.chCommitting) > 0 })
 		<-ndb.chCommitting
 	}
 
@@ -407,6 +409,7 @@ func (ndb *nodeDB) deleteFromPruning(key []byte) error {
 func (ndb *nodeDB) saveNodeFromPruning(node *Node) error {
 	if ndb.IsCommitting() {
 		// if the nodeDB is committing, the pruning process will be done after the committing.
+		verifBlockUntil(func() bool { return len(ndb.chCommitting) > 0 })
 		<-ndb.chCommitting
 	}
 
@@ -503,6 +506,7 @@ func (ndb *nodeDB) deleteVersion(version int64, cache *rootkeyCache) error {
 		}
 	}
 
+	verifYield("deleteVersion.afterOrphans")
 	literalRootKey := GetRootKey(version)
 	if rootKey == nil || !bytes.Equal(rootKey, literalRootKey) {
 		// if the root key is not matched with the literal root key, it means the given root
@@ -673,6 +677,8 @@ func (ndb *nodeDB) DeleteVersionsFrom(fromVersion int64) error {
 
 // startPruning starts the pruning process.
 func (ndb *nodeDB) startPruning() {
+	verifEnter(ndb)
+	defer verifExit(ndb)
 	for {
 		select {
 		case <-ndb.ctx.Done():
@@ -684,12 +690,18 @@ func (ndb *nodeDB) startPruning() {
 			ndb.mtx.Unlock()
 
 			if toVersion == 0 {
+				if verifSleep(100 * time.Millisecond) {
+					continue
+				}
 				time.Sleep(100 * time.Millisecond)
 				continue
 			}
 
 			if err := ndb.deleteVersionsTo(toVersion); err != nil {
 				ndb.logger.Error("Error while pruning", "err", err)
+				if verifSleep(1 * time.Second) {
+					continue
+				}
 				time.Sleep(1 * time.Second)
 				continue
 			}
@@ -770,6 +782,7 @@ func (ndb *nodeDB) deleteVersionsTo(toVersion int64) error {
 
 	rootkeyCache := newRootkeyCache()
 	for version := first; version <= toVersion; version++ {
+		verifYield("deleteVersionsTo.version")
 		if err := ndb.deleteVersion(version, rootkeyCache); err != nil {
 			return err
 		}
@@ -1281,6 +1294,7 @@ func (ndb *nodeDB) Close() error {
 	ndb.cancel()
 
 	if ndb.opts.AsyncPruning {
+		verifBlockUntil(func() bool { return verifDone(ndb) })
 		<-ndb.done // wait for the pruning process to finish
 	}
 
